@@ -105,7 +105,11 @@ func (g *agen) feature(s O, d int) {
 			g.Label("kw:additionalItems")
 		}
 	case 6:
-		s["patternProperties"] = O{"^x": g.schema(d + 1)}
+		pp := O{"^x": g.schema(d + 1)}
+		if g.Pct(50) {
+			pp["^y-"] = g.schema(d + 1)
+		}
+		s["patternProperties"] = pp
 		g.Label("kw:patternProperties")
 	case 7:
 		s["definitions"] = O{g.name(): g.schema(d + 1)}
@@ -193,7 +197,14 @@ func (g *agen) response(where string, shared []string) O {
 		}
 		if (g.cfg.Refs || g.cfg.RespDesc) && g.Pct(35) {
 			g.Label("ref:response")
-			return O{"$ref": g.ref()}
+			r := O{"$ref": g.ref()}
+			if g.cfg.Refs && g.Pct(20) {
+				// a $ref with siblings: loadable, and the siblings are still part of the document
+				g.Label("ref:response-with-siblings")
+				// (only the schema: the spec model does not serialise the headers of a $ref response)
+				r["schema"] = g.schema(0)
+			}
+			return r
 		}
 	}
 	r := O{}
@@ -254,7 +265,12 @@ func (g *agen) security(o O) {
 		a := A{}
 		for _, p := range []string{"sa", "sb", "sc", "undefined"} {
 			if g.Pct(40) {
-				a = append(a, O{p: A{"scope1"}})
+				if g.Pct(15) {
+					a = append(a, O{p: nil}) // scopes given as JSON null
+					g.Label("security:null-scopes")
+				} else {
+					a = append(a, O{p: A{"scope1"}})
+				}
 			}
 		}
 		if g.Pct(20) {
